@@ -27,7 +27,8 @@ def disciplined_token(c, r, qi):
 def gen_case(rng, size=None, profile=None):
     """-> (header list, op list) ; profile aims the history at one region of the proof"""
     profile = profile or rng.choice(["mixed", "mixed", "mixed", "nonrun", "nstart", "churn",
-                                     "rst", "keys", "wrapless", "err", "xres", "rstcon", "rstcon"])
+                                     "rst", "keys", "wrapless", "err", "xres", "rstcon", "rstcon",
+                                     "blocks", "blocks"])
     nres = rng.choice([1, 1, 2, 2, 3])
     modes = [rng.choice([0, 0, 0, 0, 1, 1, 2]) for _ in range(3)]
     if profile == "nonrun":
@@ -60,11 +61,23 @@ def gen_case(rng, size=None, profile=None):
     ninit = len(ops)
     n += ninit
     live = []            # (c, r, q, tok) registrations we believe are live (best effort)
+    if profile == "blocks":
+        # notification bodies of 3..5 blocks of 16 bytes; the observers fetch the later blocks
+        # while the resources keep changing
+        for r in range(nres):
+            if rng.random() < 0.8:
+                ops.append("big:%d:%d" % (r, rng.choice([40, 40, 48, 70])))
+        n += len(ops) - ninit
 
     def reg(kind="reg"):
         c = rng.randrange(nobs)
         r = rng.randrange(nres)
         qi = rng.randrange(len(QUERIES)) if (profile == "keys" or rng.random() < 0.3) else 0
+        if profile == "blocks":
+            # one observation per peer: a multi-block notification sent earlier in the same I/O
+            # step to the same session also holds back the session's other observers, which the
+            # model (flag taken at the entry of the step) does not follow
+            r, qi = c % nres, 0
         q = QUERIES[qi]
         if profile == "xres":
             tok = rng.choice(["a1", "a2"])
@@ -72,8 +85,11 @@ def gen_case(rng, size=None, profile=None):
             tok = rng.choice(TOKENS)
         else:
             tok = disciplined_token(c, r, qi)
-        t = rng.choice([0, 0, 1])
+        # type (CON / NON) + 2 * leading zero bytes of the Observe value (00 01, 00 00 01 are legal)
+        t = rng.choice([0, 0, 1]) + 2 * rng.choice([0, 0, 0, 1, 2])
         x = rng.choice(EXTRAS) if (profile == "keys" or rng.random() < 0.15) else ""
+        if profile == "blocks":
+            x = "23=_"
         if kind == "can" and live and rng.random() < 0.8:
             c, r, q, tok = rng.choice(live)
         op = "%s:%d:%d:%s:%s:%d" % (kind, c, r, q, tok, t)
@@ -97,6 +113,7 @@ def gen_case(rng, size=None, profile=None):
              "wrapless": (0.10, 0.45, 0.80, 0.88, 0.92, 0.94, 0.96, 0.97, 0.98, 0.99, 0.995, 0.999),
              "err": (0.15, 0.38, 0.58, 0.66, 0.72, 0.76, 0.79, 0.82, 0.92, 0.95, 0.97, 0.99),
              "xres": (0.12, 0.40, 0.62, 0.70, 0.86, 0.88, 0.94, 0.96, 0.97, 0.98, 0.99, 0.995),
+             "blocks": (0.08, 0.34, 0.54, 0.58, 0.62, 0.65, 0.66, 0.76, 0.77, 0.78, 0.79, 0.80),
              "rstcon": (0.10, 0.42, 0.66, 0.74, 0.90, 0.91, 0.95, 0.96, 0.97, 0.98, 0.99, 0.995),
              }[profile]
         if x < w[0]:
@@ -128,6 +145,15 @@ def gen_case(rng, size=None, profile=None):
         else:
             ops.append("idle")
         # bursts that cross the NON budget: change + io several times in a row
+        if profile == "blocks" and live and rng.random() < 0.6:
+            c, r, q, tok = rng.choice(live)
+            first = rng.choice([1, 1, 1, 2])
+            for num in range(first, rng.choice([2, 3, 3, 4, 5])):
+                ops.append("blk:%d:%d:%s:%s:%d:%d" % (c, r, q, tok, rng.choice([0, 0, 1]), num))
+                if rng.random() < 0.4:
+                    ops.append("chg:%d:1" % rng.randrange(nres))
+                if rng.random() < 0.3:
+                    ops.append("io")
         if profile == "rstcon" and rng.random() < 0.2:
             # answer the latest confirmable, then a run of changes on every resource
             a = rng.choice(["rst:%d:0", "ack:%d:0", "rst:%d:0", "fail"])
@@ -157,9 +183,10 @@ def _hexq(q):
     return [("15", v) for v in q.split("+")] if q != "-" else []
 
 
-def request_opts(r, q, x, observe):
+def request_opts(r, q, x, observe, zeros=0):
     """option list of the request datagram the harness builds, in wire order"""
-    opts = [("6", "01" if observe else "_"), ("11", ("r%d" % r).encode().hex())]
+    ov = "00" * zeros + ("01" if observe else "")
+    opts = [("6", ov if ov else "_"), ("11", ("r%d" % r).encode().hex())]
     opts += _hexq(q)
     body = None
     if x:
@@ -181,6 +208,7 @@ def _ca(tok, wire=None, leaks=None, where=""):
     """con_active of the sessions as the implementation reports it, capped by what is really
     outstanding on the wire: a session without an unanswered confirmable message has a free NSTART
     slot whatever the library's counter says (a leaked counter must not excuse a held-back observer)"""
+    tok, _, lg = tok.partition("~")
     parts = tok.split(",")
     out = []
     for i, p in enumerate(parts):
@@ -195,6 +223,10 @@ def _ca(tok, wire=None, leaks=None, where=""):
                                  "on the wire: %d" % (where, v, i, w))
                 v = w
         out.append("%d=%d" % (i, v))
+    # a large (Block2) transmission to the session is unfinished (input under the key s + 2^20)
+    for i, ch in enumerate(lg):
+        if ch == "1":
+            out.append("%d=1" % (i + 1048576))
     return ",".join(out) if out else "-"
 
 
@@ -211,6 +243,7 @@ class Trace:
         self.obs0 = {}          # resource -> initial observe value (coap_persist_set_observe_num)
         self.anomalies = []     # wire details the model fixes but its outputs do not carry
         self.ca_leaks = []      # con_active above the number of confirmables outstanding on the wire
+        self.extra_notifs = []  # Observe options on answers to block requests: (group index, r, c, tok, v, event)
 
 
 def translate(case_line, trace_line):
@@ -233,6 +266,7 @@ def translate(case_line, trace_line):
     wire = {}               # c -> set of mids of confirmable messages sent to c and not yet answered
                             #      (ACK or RST delivered), given up, or dropped with the session
     cur_hop = None
+    cur_blk = None
     cur = None              # current model group [op, outs, hop, events]
     in_step = False
     pending_del = None
@@ -247,6 +281,7 @@ def translate(case_line, trace_line):
         i += 1
         if tk.startswith("["):
             cur_hop = tk[1:]
+            cur_blk = None
             cur = None
             pending_del = None
             f = cur_hop.split(":")
@@ -255,13 +290,15 @@ def translate(case_line, trace_line):
                 c, r, q, tok = int(f[1]), int(f[2]), f[3], f[4]
                 x = f[6] if len(f) > 6 else ""
                 mop = "%s:%d:%d:%s:%s" % ("R" if op == "reg" else "C", r, c, tok,
-                                          request_opts(r, q, x, op == "can"))
+                                          request_opts(r, q, x, op == "can", (int(f[5]) // 2) % 3))
                 last_req[c] = mop
                 new_group(mop, cur_hop)
             elif op == "redo":
                 c = int(f[1])
                 if c in last_req:
                     new_group(last_req[c], cur_hop)
+                else:
+                    cur_blk = (-1, c, "")
             elif op == "chg":
                 for _ in range(int(f[2])):
                     new_group("H:%d" % int(f[1]), cur_hop)
@@ -281,6 +318,9 @@ def translate(case_line, trace_line):
                 if not f[1].endswith("=none"):
                     wire.pop(int(f[1]), None)
                     new_group("L:%d" % int(f[1]), cur_hop)
+            elif op == "blk":
+                cur_blk = (int(f[2]), int(f[1]), f[4])        # (r, c, tok) the blocks belong to
+                last_req.pop(int(f[1]), None)                 # a repeated block request is no model op
             elif op == "del":
                 pending_del = int(f[1])
             elif op == "init":
@@ -323,12 +363,13 @@ def translate(case_line, trace_line):
                 t.why = "bad datagram " + tk
                 continue
             d = {"k": int(f[0]), "c": int(f[1]), "origin": f[2], "type": f[3], "code": int(f[4]),
-                 "mid": int(f[5]), "tok": f[6], "obs": f[7], "pay": f[8], "hop": cur_hop}
+                 "mid": int(f[5]), "tok": f[6], "obs": f[7], "pay": f[8], "hop": cur_hop,
+                 "blk": f[9] if len(f) > 9 else "-"}
             t.datagrams.append(d)
             if d["type"] == "C" and d["c"] >= 0:
                 wire.setdefault(d["c"], set()).add(d["mid"])
             body = bytes.fromhex(d["pay"]).decode("latin-1") if d["pay"] != "-" else ""
-            m = re.match(r"(\d+)\.(\d+)$", body)
+            m = re.match(r"(\d+)\.(\d+)(\.x*)?$", body)
             d["res"] = int(m.group(1)) if m else None
             d["state"] = int(m.group(2)) if m else None
             con = "C" if d["type"] == "C" else "N"
@@ -373,6 +414,13 @@ def translate(case_line, trace_line):
                         cur[1].append("Q%s:%s:%s:%s" % (rr[1], rr[2], d["tok"],
                                                          d["obs"] if cls == 2 else "-"))
                     d["response"] = True
+                elif cur_blk is not None and d["type"] in "AN":
+                    # answer to a request for a later block: per RFC 7959 2.6 not a notification;
+                    # if it carries an Observe option it counts as one for the ordering oracle
+                    d["block_response"] = True
+                    if d["obs"] != "-" and cls == 2:
+                        t.extra_notifs.append((len(t.groups), str(cur_blk[0]), str(cur_blk[1]), cur_blk[2],
+                                               int(d["obs"]), tk))
                 else:
                     d["stray"] = True
             continue
